@@ -587,6 +587,17 @@ pub fn syntax_section(table_id: u8, id: u16, version: u8, body: &[u8]) -> Vec<u8
     with_crc(s)
 }
 
+/// vary bits no property depends on (private_indicator, reserved bits, section numbers) and, with
+/// `cni0`, clear current_next_indicator; the CRC is recomputed
+pub fn vary_section(r: &Rng, sec: &[u8], cni0: bool) -> Vec<u8> {
+    let mut s = sec[..sec.len() - 4].to_vec();
+    if r.chance(1, 2) { s[1] = (s[1] & 0x8f) | (r.byte() & 0x70); }
+    if r.chance(1, 2) { s[5] = (s[5] & 0x3f) | (r.byte() & 0xc0); }
+    if r.chance(1, 4) { s[6] = r.byte(); s[7] = r.byte(); }
+    if cni0 { s[5] &= 0xfe; }
+    with_crc(s)
+}
+
 pub fn pat_section(tsid: u16, version: u8, entries: &[(u16, u16)]) -> Vec<u8> {
     let mut body = vec![];
     for &(pn, pid) in entries {
@@ -1010,6 +1021,22 @@ pub fn pat_of(progs: &[Prog], nit: Option<u16>) -> Vec<(u16, u16)> {
 
 pub fn pmt_of(p: &Prog) -> Vec<u8> { pmt_section(p.num, p.version, p.pcr_pid, &p.prog_desc, &p.streams) }
 
+/// the packets of `n` transmissions of `sec` on `pid`, with payload-less (adaptation-field-only)
+/// packets sprinkled between and inside them
+fn table_reps(m: &mut Mux<'_>, pid: u16, sec: &[u8], n: usize) -> Vec<Vec<u8>> {
+    let r = m.r;
+    let mut q = vec![];
+    for _ in 0..n {
+        let pk = m.section(pid, sec, &plan_for(r, sec));
+        for p in pk {
+            q.push(p);
+            if r.chance(1, 6) { q.push(m.af_only(pid)); }
+        }
+        if r.chance(1, 3) { q.push(m.af_only(pid)); }
+    }
+    q
+}
+
 fn plan_for(r: &Rng, sec: &[u8]) -> SecPlan {
     if r.chance(1, 2) { simple_plan(sec.len()) } else { rand_plan(r, sec.len(), 8) }
 }
@@ -1037,10 +1064,11 @@ fn wf_mux(r: &Rng, nprog: usize, max_streams: usize, pes_per_pid: usize, max_pay
     let mut used = vec![0u16, 0x1fff];
     let progs = rand_progs(r, nprog, max_streams, &mut used);
     let nit = if r.chance(1, 3) { let n = distinct_pids(r, 1, &used)[0]; used.push(n); Some(n) } else { None };
-    let pat = pat_section(r.below(65536) as u16, r.byte() & 31, &pat_of(&progs, nit));
+    let pat = vary_section(r, &pat_section(r.below(65536) as u16, r.byte() & 31, &pat_of(&progs, nit)), r.chance(1, 8));
+    let pmts: Vec<Vec<u8>> = progs.iter().map(|p| vary_section(r, &pmt_of(p), r.chance(1, 8))).collect();
     let mut head = vec![];
-    head.extend(m.section(0, &pat, &plan_for(r, &pat)));
-    for p in progs.iter() { let s = pmt_of(p); head.extend(m.section(p.pmt_pid, &s, &plan_for(r, &s))); }
+    head.extend(table_reps(&mut m, 0, &pat, 1));
+    for (p, s) in progs.iter().zip(pmts.iter()) { head.extend(table_reps(&mut m, p.pmt_pid, s, 1)); }
     let mut qs = vec![];
     for p in progs.iter() {
         for (st, pid, _) in p.streams.iter() {
@@ -1057,14 +1085,11 @@ fn wf_mux(r: &Rng, nprog: usize, max_streams: usize, pes_per_pid: usize, max_pay
         }
     }
     if repeats {
-        let mut q = vec![];
-        for _ in 0..(1 + r.below(4)) { q.extend(m.section(0, &pat, &plan_for(r, &pat))); }
-        qs.push(q);
-        for p in progs.iter() {
-            let s = pmt_of(p);
-            let mut q = vec![];
-            for _ in 0..(1 + r.below(4)) { q.extend(m.section(p.pmt_pid, &s, &plan_for(r, &s))); }
-            qs.push(q);
+        let n = 1 + r.below(4) as usize;
+        qs.push(table_reps(&mut m, 0, &pat, n));
+        for (p, s) in progs.iter().zip(pmts.iter()) {
+            let n = 1 + r.below(4) as usize;
+            qs.push(table_reps(&mut m, p.pmt_pid, s, n));
         }
     }
     if r.chance(1, 3) { qs.push((0..r.below(4)).map(|_| null_pkt(r)).collect()); }
@@ -1110,18 +1135,19 @@ fn gen_c10(tier: &str, r: &Rng, o: &mut Out<'_>) {
         let mut m = Mux::new(r);
         let mut used = vec![0u16, 0x1fff];
         let progs = rand_progs(r, 1 + r.below(2) as usize, 3, &mut used);
-        let pat = pat_section(7, r.byte() & 31, &pat_of(&progs, None));
+        let pat = vary_section(r, &pat_section(7, r.byte() & 31, &pat_of(&progs, None)), i % 7 == 3);
         let big = i % 3 == 0;
         let progs: Vec<Prog> = progs.into_iter().map(|mut p| { if big { p.prog_desc = { let mut d = vec![]; for _ in 0..20 { d.extend(rand_desc(r)); } d }; } p }).collect();
-        let mut head = m.section(0, &pat, &plan_for(r, &pat));
-        for p in progs.iter() { let s = pmt_of(p); head.extend(m.section(p.pmt_pid, &s, &plan_for(r, &s))); }
+        let pmts: Vec<Vec<u8>> = progs.iter().map(|p| vary_section(r, &pmt_of(p), i % 7 == 5)).collect();
+        let mut head = table_reps(&mut m, 0, &pat, 1);
+        for (p, s) in progs.iter().zip(pmts.iter()) { head.extend(table_reps(&mut m, p.pmt_pid, s, 1)); }
         let mut qs = vec![];
         for p in progs.iter() { for (st, pid, _) in p.streams.iter() { if PES_TYPES.contains(st) {
             let mut q = vec![]; for _ in 0..3 { q.extend(m.pes(*pid, &rand_pes(r, 500), false)); } qs.push(q);
         } } }
         let reps = 1 + r.below(if i % 10 == 0 { 50 } else { 6 });
-        let mut q = vec![]; for _ in 0..reps { q.extend(m.section(0, &pat, &plan_for(r, &pat))); } qs.push(q);
-        for p in progs.iter() { let s = pmt_of(p); let mut q = vec![]; for _ in 0..reps { q.extend(m.section(p.pmt_pid, &s, &plan_for(r, &s))); } qs.push(q); }
+        qs.push(table_reps(&mut m, 0, &pat, reps as usize));
+        for (p, s) in progs.iter().zip(pmts.iter()) { qs.push(table_reps(&mut m, p.pmt_pid, s, reps as usize)); }
         let mut all = head; all.extend(interleave(r, qs));
         // version sequence v -> w -> v on one PMT at the end
         if i % 5 == 0 {
